@@ -1536,7 +1536,7 @@ func (c *Chain) syncBoundaryOps(p *ProposeCtx) {
 	if c.syncTargetsDone == nil {
 		c.syncTargetsDone = map[common.Epoch]bool{}
 	}
-	if len(c.syncTargetsDone) >= 4 || uint64(sp.ALTAIR_FORK_EPOCH) >= uint64(c.Epochs) {
+	if c.QuietRegistry || len(c.syncTargetsDone) >= 4 || uint64(sp.ALTAIR_FORK_EPOCH) >= uint64(c.Epochs) {
 		return
 	}
 	t := sp.ComputeActivationExitEpoch(p.Epoch)
